@@ -21,6 +21,7 @@ const (
 //	flt                      FLo FHi
 //	bool                     B  (-1 = n, 1 = t, 0 = f)
 //	strval rx                S[0]
+//	rt                       S[0] runtime, S[1] name, S[2] pattern source when present (len(S) == 3)
 //	enum                     CI, S (values)
 //	pat                      S (sources)
 //	arr                      Ts[0], Lo Hi
@@ -128,6 +129,10 @@ func NU(t Ty) Ty                             { return Wrap1("nu", t) }
 func TypeOf(t Ty) Ty                         { return Wrap1("type", t) }
 func Sens(t Ty) Ty                           { return Wrap1("sens", t) }
 func Iter(t Ty) Ty                           { return Wrap1("iter", t) }
+// Runtime is Runtime[runtime, name] / Runtime[runtime, name, Regexp[/pattern/]] (no Go type); Runtime("", "") is the default
+func Runtime(runtime, name string, pattern ...string) Ty {
+	return Ty{K: "rt", S: append([]string{runtime, name}, pattern...)}
+}
 func Itr(t Ty) Ty                            { return Wrap1("itr", t) }
 func Alias(t Ty) Ty                          { return Wrap1("alias", t) }
 func Obj(path ...int64) Ty                   { return Ty{K: "obj", Path: path} }
@@ -222,6 +227,12 @@ func (t Ty) Sexp() sx.Sexp {
 		return sx.T("bool", sx.A("n"))
 	case "strval", "rx", "txt":
 		return sx.T(t.K, sx.Str(t.S[0]))
+	case "rt":
+		pat := sx.A("none")
+		if len(t.S) > 2 {
+			pat = sx.L(sx.Str(t.S[2]))
+		}
+		return sx.T("rt", sx.Str(t.S[0]), sx.Str(t.S[1]), pat)
 	case "enum":
 		return sx.T("enum", append([]sx.Sexp{sx.Bool(t.CI)}, strsSexp(t.S)...)...)
 	case "pat":
@@ -422,6 +433,25 @@ func ParseTy(e sx.Sexp) (Ty, error) {
 			err = fmt.Errorf("nanoseconds out of range")
 		}
 		return t, err
+	case "rt":
+		if err = arity(e, 3); err != nil {
+			return Ty{}, err
+		}
+		ss, err := parseStrs(a[:2])
+		if err != nil {
+			return Ty{}, err
+		}
+		t := Ty{K: tag, S: ss}
+		if a[2].IsList {
+			ps, err := parseStrs(a[2].List)
+			if err != nil || len(ps) != 1 {
+				return Ty{}, fmt.Errorf("bad runtime pattern")
+			}
+			t.S = append(t.S, ps[0])
+		} else if a[2].Atom != "none" {
+			return Ty{}, fmt.Errorf("bad runtime pattern")
+		}
+		return t, nil
 	case "flt":
 		if err = arity(e, 2); err != nil {
 			return Ty{}, err
